@@ -73,6 +73,7 @@ type FnCtx struct {
 	assumptions map[string]bool
 	splitTerm Val
 	usedLemmas map[string]bool
+	inReturn   bool
 }
 
 type siteKey struct {
